@@ -64,6 +64,15 @@ def _wrapper(wd, name: str, base: str, worlds: str) -> dict:
     return {"overrides": {"Worlds": "WorldsDef"}}
 
 
+def _at(f, c: int):
+    """Value of a TLA+ function with domain 1..n (TLC prints it as a sequence) at c."""
+    return f[c] if isinstance(f, dict) else f[c - 1]
+
+
+def _items(f) -> tuple:
+    return tuple(sorted(f.items())) if isinstance(f, dict) else tuple(f)
+
+
 def _steps(beh: list[dict]) -> list[tuple]:
     out = []
     lab_l = {"start": "start", "accept": "accept", "done": "EXIT"}
@@ -75,12 +84,14 @@ def _steps(beh: list[dict]) -> list[tuple]:
             out.append(("L", 0, lab_l.get(st["loop"], "acq")))
         elif a == "C":
             c = int(b["args"][0])
-            out.append(("C", c, lab_c.get(st["cl"][c], st["cl"][c])))
+            out.append(("C", c, lab_c.get(_at(st["cl"], c), _at(st["cl"], c))))
         elif a == "H":
             c = int(b["args"][0])
-            out.append(("H", c, lab_h.get(st["h"][c], st["h"][c])))
-        else:
+            out.append(("H", c, lab_h.get(_at(st["h"], c), _at(st["h"], c))))
+        elif a == "CloseListener":
             out.append(("X", 0, ""))
+        else:
+            raise MachineryError(f"unlabelled step in the state graph: {a}")
     return out
 
 
@@ -89,8 +100,8 @@ def run(ctx: Ctx) -> None:
     for m in ("ConnIso", "ConnIsoTrace", "ConnIsoMonitor"):
         sany(wd, m)
     # ---- (1) the design
-    bad = run_tlc(wd, _wrapper(wd, "MC_ConnShared", "ConnIso", _worlds([[P, P]], [0])) and "MC_ConnShared",
-                  render_cfg(constants={"SharedState": True}, invariants=INVS, overrides={"Worlds": "WorldsDef"}), workers=4)
+    kw = _wrapper(wd, "MC_ConnShared", "ConnIso", _worlds([[P, P]], [0]))
+    bad = run_tlc(wd, "MC_ConnShared", render_cfg(constants={"SharedState": True}, invariants=INVS, **kw), workers=4)
     ctx.extra["design_with_shared_stream_state_violates"] = bad.violated
     if bad.violated != "IsoHistory":
         raise MachineryError(f"the shared-state design should violate IsoHistory, TLC says {bad.violated} {bad.error}")
@@ -113,11 +124,20 @@ def run(ctx: Ctx) -> None:
 
     # ---- (2) spec -> code: interleavings from the state graph forced on the real threads
     def key(s, lab, d):
-        return (lab, json.dumps(s["script"], sort_keys=True, default=str), s["mx"], s["loop"], tuple(sorted(s["cl"].items())),
-                tuple(sorted(s["h"].items())), len(s["backlog"]), len(s["serving"]))
+        # one class per (acting thread's move, what the other connections' threads are parked at, permits in use)
+        if lab.startswith(("C(", "H(")):
+            c = int(lab[2:-1])
+            f = "cl" if lab[0] == "C" else "h"
+            move = (lab[0], _at(s[f], c), _at(d[f], c), _at(s["h" if f == "cl" else "cl"], c))
+            others = tuple(sorted((_at(s["cl"], o), _at(s["h"], o)) for o in range(1, len(_items(s["cl"])) + 1) if o != c))
+        else:
+            move = (lab, s["loop"], d["loop"])
+            others = tuple(sorted(zip(_items(s["cl"]), _items(s["h"]))))
+        return (move, others, s["mx"], len(s["serving"]), len(s["backlog"]))
 
-    paths = g.edge_cover_paths(ctx.rng, max_paths=260 if ctx.quick else 4000, key=key, max_len=200)
+    paths = g.edge_cover_paths(ctx.rng, max_paths=150 if ctx.quick else 4000, key=key, max_len=200)
     ctx.extra["schedules_from_edge_cover"] = len(paths)
+    ctx.extra["edge_classes"] = len({key(g.state(u), lab, g.state(v)) for u, es in g.out.items() for lab, v in es})
     if not ctx.quick:
         paths += g.random_paths(ctx.rng, 3000, 200)
     ctx.rule = ("case = one interleaving (sequence of single-thread steps loop / client c / handler c) of 2-3 "
